@@ -100,6 +100,8 @@ def handle (j : Json) : R Json := do
       (jresult x).setObjVal! "rev" (jstr (revName r)))).toArray)]
   | "metricCounts" => metricCountsOp j
   | "loadConfig" => loadConfigOp j
+  | "setup" => setupOp j
+  | "controller" => controllerOp j
   | "registry" =>
     let cs ← arrOf regCheck (fldD j "checks")
     let valid := validateChecks cs
